@@ -62,6 +62,7 @@ def _alias_sources(value, local_alias):
 
 class MethodEffects(ast.NodeVisitor):
     def __init__(self):
+        self.scalars = set()      # attributes validated by check_scalar(self.a, ...): int/float/bool, i.e. immutable objects
         self.effects = set()      # ("W", a) ("M", a) ("A", dst, src) ("C", m) ("U",)
         self.local_alias = {}     # local name -> set of self attrs
         self.argmut = set()
@@ -145,6 +146,10 @@ class MethodEffects(ast.NodeVisitor):
 
     def visit_Call(self, node):
         f = node.func
+        if isinstance(f, ast.Name) and f.id == "check_scalar" and node.args:
+            a0 = _self_attr(node.args[0])
+            if a0 is not None:
+                self.scalars.add(a0)
         if isinstance(f, ast.Name):
             if f.id in ("exec", "eval", "vars", "globals", "locals") and (f.id != "vars" or any(isinstance(a, ast.Name) and a.id == "self" for a in node.args)):
                 if f.id in ("exec", "eval") or f.id == "vars":
@@ -242,8 +247,11 @@ def analyse(root="/repo/skactiveml"):
         params = params_of(classes, cname)
         methods = class_methods(classes, cname)
         raw = {}
+        scalars = set()
         for m, (owner, fn) in methods.items():
-            raw[m] = (owner, MethodEffects().run(fn))
+            me = MethodEffects()
+            raw[m] = (owner, me.run(fn))
+            scalars |= me.scalars
 
         def closure(m, stack=()):
             if m not in raw or m in stack:
@@ -271,10 +279,13 @@ def analyse(root="/repo/skactiveml"):
                         out |= closure(callee, stack + (m,))
             return out
         entry = {"class": cname, "file": classes[cname]["file"], "params": params, "methods": {}}
+        entry["scalar_params"] = sorted(scalars & set(params))
         for m in sorted(methods):
             if m in SKIP_METHODS:
                 continue
-            entry["methods"][m] = sorted(closure(m))
+            # aliasing an attribute to a parameter that is validated as an int/float/bool scalar is harmless:
+            # such objects are immutable, no effect through the alias can change them
+            entry["methods"][m] = sorted(e for e in closure(m) if not (e[0] == "A" and e[2] in scalars))
         table.append(entry)
     return table
 
